@@ -38,3 +38,27 @@ def _c08_overflow(f: Failure) -> bool:
         return False
     overflow_at = [i for i, (t, v) in enumerate(c["san"]) if t == "DNS" and v.split(".")[0].count("*") >= 2]
     return bool(overflow_at) and o.get("got") == "reject" and o.get("detail") == "CertificateError" and o.get("too_many_wildcards") is True
+
+
+# ---------------------------------------------------------------------------------- C14 -------
+import re as _re
+
+_DOTTED_SCHEME = _re.compile(r"^([a-zA-Z][a-zA-Z0-9+\-]*\.[a-zA-Z0-9+.\-]*)://", _re.DOTALL)
+
+
+@finding("C14", "dotted-scheme-read-as-host")
+def _c14_dotted_scheme(f: Failure) -> bool:
+    """'evil.com://good.example/': RFC 3986 reads scheme 'evil.com' + host 'good.example'; parse_url's scheme
+    pre-check does not allow '.', prepends '//' and reads host 'evil.com' (pinned by test_deprecated_no_scheme)."""
+    url = f["case"].get("url", "")
+    m = _DOTTED_SCHEME.match(url)
+    if not m:
+        return False
+    o = f["observed"]
+    if f["kind"] == "reference-disagreement":
+        got = (o.get("got") or {}).get("host")
+    elif f["kind"] == "host-from-unsplittable-authority":
+        got = o.get("host")
+    else:
+        return False
+    return isinstance(got, str) and got.lower() == m.group(1).lower()
